@@ -213,7 +213,7 @@ def catGroupRare (g1 : GL) (rows2 : Rows) (toGroup : List Val) (strDefault : Str
 def catSort (g2 : GL) (rows3 : Rows) (toGroup : List Val) (strNan strDefault : String) : Except Err CatResult :=
   let keys := GL.isort strLeVal (uniques rows3)
   let rated := keys.map (fun v => (v, rateOf rows3 v))
-  let newOrder0 := (sortByKey (fun p => p.2) rated).map (·.1)
+  let newOrder0 := sortByKey (rateOf rows3) keys
   let dInOrder := decide (Val.str strDefault ∈ g2.lst)
   let dInNew := decide (Val.str strDefault ∈ newOrder0)
   if dInOrder != dInNew then .error (Err.assertion "Some values are never observed") else
